@@ -634,7 +634,11 @@ class C06(Profile):
             'COPY; 15% of the cases go to the ManageSieve listener instead '
             '(1-8 lines from templates for every command with hostile names, '
             'script bodies and CHECKSCRIPT sources, mutated, or raw). A '
-            'canary connection sends NOOP after every input. '
+            'canary connection sends NOOP after every input. 25% of all '
+            'cases instead replay the C01 multi-session generator (15%) or '
+            'the C10 program generator (10%) and report only unexpected '
+            'exceptions and hangs: valid commands that meet a stale view or '
+            'a fault. '
             'Distinct = case hash; non-trivial = at least one input line '
             'reached the server.')
     assumptions = C01.assumptions + [
@@ -645,10 +649,26 @@ class C06(Profile):
 
     def gen(self, rng, tier):
         from .common import backends, finish_cfg
-        return finish_cfg(gen_input_case(
-            rng, tier, backends=backends(self.BACKENDS)), rng)
+        bk = backends(self.BACKENDS)
+        r = rng.random()
+        if r < 0.75:
+            return finish_cfg(gen_input_case(rng, tier, backends=bk), rng)
+        # valid commands meeting another session's changes: stale views,
+        # vanished messages, cancelled and reset connections
+        if r < 0.9:
+            from .c01 import gen_concurrent_case
+            case = gen_concurrent_case(rng, tier, backends=bk)
+            case['family'] = 'concurrent'
+        else:
+            from .c10 import gen_model_case
+            case = gen_model_case(rng, tier, backends=bk)
+            case['family'] = 'model'
+        return finish_cfg(case, rng)
 
     def run(self, case, trace=False):
+        if case.get('family') in ('concurrent', 'model'):
+            from .c01 import run_concurrent
+            return run_concurrent(case, 'C06', trace)
         return run_inputs(case, trace)
 
 
